@@ -1647,13 +1647,11 @@ func CharCode(vm *VM, char, code Term, k Cont, env *Env) *Promise {
 		case Variable:
 			return Error(InstantiationError(env))
 		case Integer:
-			r := rune(cd)
-
-			if !utf8.ValidRune(r) {
+			if cd < 0 || cd > unicode.MaxRune || !utf8.ValidRune(rune(cd)) {
 				return Error(representationError(flagCharacterCode, env))
 			}
 
-			return Unify(vm, ch, Atom(r), k, env)
+			return Unify(vm, ch, Atom(rune(cd)), k, env)
 		default:
 			return Error(typeError(validTypeInteger, code, env))
 		}
@@ -2256,7 +2254,7 @@ func AtomCodes(vm *VM, atom, codes Term, k Cont, env *Env) *Promise {
 			case Variable:
 				return Error(InstantiationError(env))
 			case Integer:
-				if e < 0 || e > unicode.MaxRune {
+				if e < 0 || e > unicode.MaxRune || !utf8.ValidRune(rune(e)) {
 					return Error(representationError(flagCharacterCode, env))
 				}
 				_, _ = sb.WriteRune(rune(e))
@@ -2275,7 +2273,7 @@ func AtomCodes(vm *VM, atom, codes Term, k Cont, env *Env) *Promise {
 			case Variable:
 				break
 			case Integer:
-				if e < 0 || e > unicode.MaxRune {
+				if e < 0 || e > unicode.MaxRune || !utf8.ValidRune(rune(e)) {
 					return Error(representationError(flagCharacterCode, env))
 				}
 			default:
